@@ -472,6 +472,16 @@ def build_base(top, pre):
     return outs
 
 
+def _has_removal(p):
+    if p[0] == "op":
+        return p[1] in ("purge", "unstore", "emptytrash")
+    if p[0] == "block":
+        return any(_has_removal(q) for q in p[1])
+    if p[0] == "try":
+        return _has_removal(p[1])
+    return False
+
+
 def _uses_transfer(p):
     if p[0] == "op":
         return p[1] in ("transfer", "import")
@@ -516,7 +526,14 @@ def run_one(base, work, prog, at, flavour, follow=None):
         res = {"out": out, "fired": INJ.fired, "nevents": INJ.n, "escapes": list(w.escapes), "obs": w.observe()}
         if at is None:
             res["trace"] = list(INJ.trace)
-        if follow:
+        if follow == [["op", "emptytrash"]] and at is not None and not _has_removal(prog) and res["obs"].get("raw_trash_n") == 0 \
+                and not res["obs"]["errors"]:
+            # the follow-up emptyTrash of a FAULT run of a program without removals whose trash table is empty has nothing to
+            # do: observing again would repeat the same fifteen queries (a quarter of the run time).  The fault-free run of every
+            # program and every run of a program containing a removal still execute and observe the follow-up.
+            res["follow_out"] = ["Normal"]
+            res["follow_obs"] = res["obs"]
+        elif follow:
             fo = []
             for q in follow:
                 try:
